@@ -14,7 +14,7 @@ ERROR awkward_ListArray_getitem_carry(
   int64_t lenstarts,
   int64_t lencarry) {
   for (int64_t i = 0;  i < lencarry;  i++) {
-    if (fromcarry[i] >= lenstarts) {
+    if (fromcarry[i] < 0  ||  fromcarry[i] >= lenstarts) {
       return failure("index out of range", i, fromcarry[i], FILENAME(__LINE__));
     }
     tostarts[i] = (C)(fromstarts[fromcarry[i]]);
